@@ -363,6 +363,9 @@ func checkE(c CaseE) (viol *core.Violation) {
 				return w.effects(g, ev), diffSnaps(before, w.snapAll()), nil
 			}
 
+			// white-box, for the statistics only: does the implementation still hold the id?
+			// (it forgets ids on some kinds the finality table does not list, e.g. demon-info)
+			implHas := strings.Contains(","+taskIDs(ses.A)+",", fmt.Sprintf(",%x,", id))
 			eff, change, v := send()
 			if v != nil {
 				return v
@@ -380,9 +383,11 @@ func checkE(c CaseE) (viol *core.Violation) {
 				if had {
 					lastE.accEffect++
 					lastE.labels["accepted:"+k.Name] = true
-				} else {
+				} else if implHas {
 					lastE.accNoEffect++
 					lastE.labels["accepted-no-effect:"+k.Name] = true
+				} else {
+					lastE.labels["id-already-forgotten-by-teamserver"] = true
 				}
 				if k.Final && had {
 					t := m.find(id)
